@@ -92,10 +92,15 @@ func init() {
 					o["roundtrip"] = rt
 					o["validate_consistent"] = (confparse.ValidateURL(s, true) == nil) == (err == nil)
 				case "tptaddr":
-					s := map[string]string{"ok": "udp|1.2.3.4:5", "noid": "|1.2.3.4:5", "noaddr": "udp|", "nodelim": "udp-1.2.3.4", "twodelim": "ws|a|b", "empty": ""}[c.C]
+					s := map[string]string{"ok": "udp|1.2.3.4:5", "noid": "|1.2.3.4:5", "noaddr": "udp|", "nodelim": "udp-1.2.3.4", "twodelim": "ws|a|b", "empty": "", "wsid": " |1.2.3.4:5", "wsaddr": "udp| "}[c.C]
 					id, addr, err := tptaddr.ParseTptAddr(s)
 					o["accept"] = err == nil
 					o["roundtrip"] = err != nil || id+"|"+addr == s
+					if err == nil {
+						// what was accepted has two non-empty components and survives format + parse
+						id2, addr2, err2 := tptaddr.ParseTptAddr(id + "|" + addr)
+						o["roundtrip"] = o["roundtrip"].(bool) && id != "" && addr != "" && err2 == nil && id2 == id && addr2 == addr
+					}
 				case "pam":
 					var in []string
 					for _, e := range c.G {
